@@ -468,6 +468,7 @@ def _parse_line_v33(raw, system):
             'r': data[3], 'x': data[4], 'b': data[5],
             'rate_a': data[6], 'rate_b': data[7], 'rate_c': data[8],
             'g1': data[9], 'b1': data[10], 'g2': data[11], 'b2': data[12],  # line shunts at the `I` and `J` ends
+            'Sn': system.config.mva,  # branch data are in pu on the system base `SBASE` of the file
             'Vn1': system.Bus.get(src='Vn', idx=data[0], attr='v'),
             'Vn2': system.Bus.get(src='Vn', idx=bus2, attr='v'),
         }
